@@ -204,7 +204,7 @@ func (e *encryptionRequest) ReadFrom(r io.Reader) (int64, error) {
 // Source: http://wiki.vg/Protocol_Encryption#Server
 func authDigest(serverID string, sharedSecret, publicKey []byte) string {
 	h := sha1.New()
-	h.Write([]byte(serverID))
+	h.Write(latin1(serverID))
 	h.Write(sharedSecret)
 	h.Write(publicKey)
 	hash := h.Sum(nil)
@@ -329,4 +329,18 @@ func genEncryptionKeyResponse(shareSecret, publicKey, verifyToken []byte) (erp p
 		pk.ByteArray(cryptPK),
 		pk.ByteArray(verifyT),
 	), nil
+}
+
+// latin1 returns the bytes the vanilla client and server hash for a server id: Java's
+// String.getBytes(ISO_8859_1), one byte per character and '?' for characters beyond U+00FF.
+func latin1(s string) []byte {
+	b := make([]byte, 0, len(s))
+	for _, r := range s {
+		if r < 256 {
+			b = append(b, byte(r))
+		} else {
+			b = append(b, '?')
+		}
+	}
+	return b
 }
